@@ -179,7 +179,7 @@ type knownEntry struct {
 }
 
 func loadKnown() []knownEntry {
-	f, err := os.Open("/verif/known_findings.jsonl")
+	f, err := os.Open(Root()+"/known_findings.jsonl")
 	if err != nil {
 		return nil
 	}
@@ -304,7 +304,7 @@ func Main(args []string) int {
 		n = 1
 	}
 	self, _ := os.Executable()
-	os.MkdirAll("/verif/.build/work", 0o755)
+	os.MkdirAll(Root()+"/.build/work", 0o755)
 	var wg sync.WaitGroup
 	results := make([]Result, n)
 	errs := make([]error, n)
@@ -312,7 +312,7 @@ func Main(args []string) int {
 		wg.Add(1)
 		go func(i int) {
 			defer wg.Done()
-			of := fmt.Sprintf("/verif/.build/work/%s.%s.w%d.json", prop, *tier, i)
+			of := fmt.Sprintf(Root()+"/.build/work/%s.%s.w%d.json", prop, *tier, i)
 			os.Remove(of)
 			cmd := exec.Command(self, prop, "--tier", *tier, "--worker", fmt.Sprintf("%d/%d", i, n), "--out", of)
 			cmd.Env = append(os.Environ(), "GOMAXPROCS=2")
@@ -401,11 +401,11 @@ func Main(args []string) int {
 			unknown = append(unknown, v)
 		}
 	}
-	os.MkdirAll("/verif/replays/"+prop, 0o755)
+	os.MkdirAll(Root()+"/replays/"+prop, 0o755)
 	for i := range unknown {
 		v := &unknown[i]
 		h := sha256.Sum256([]byte(v.Sig))
-		p := filepath.Join("/verif/replays", prop, hex.EncodeToString(h[:6])+".json")
+		p := filepath.Join(Root()+"/replays", prop, hex.EncodeToString(h[:6])+".json")
 		v.Replay = p
 		bz, _ := json.MarshalIndent(v, "", " ")
 		os.WriteFile(p, bz, 0o644)
@@ -426,6 +426,9 @@ func Main(args []string) int {
 		len(unknown), len(merged.Violations)-len(unknown), merged.Capped, time.Since(t0).Seconds())
 	return exit
 }
+
+// Root is the verification root (default /verif; a snapshot run sets VERIF_ROOT).
+func Root() string { return envOr("VERIF_ROOT", "/verif") }
 
 func envOr(k, d string) string {
 	if v := os.Getenv(k); v != "" {
@@ -485,6 +488,6 @@ func writeEvidence(prop, tier string, seed int64, ci *CheckInfo, r Result, nviol
 		"violations": nviol, "known_findings_matched": known - nviol,
 	}
 	bz, _ := json.MarshalIndent(ev, "", " ")
-	os.MkdirAll("/verif/evidence", 0o755)
-	os.WriteFile(filepath.Join("/verif/evidence", prop+".json"), bz, 0o644)
+	os.MkdirAll(Root()+"/evidence", 0o755)
+	os.WriteFile(filepath.Join(Root()+"/evidence", prop+".json"), bz, 0o644)
 }
